@@ -172,6 +172,39 @@ fn registered_case(i: u64, out: &mut WorkerOut) {
     // cases 9..11: a long word (anything that bounds the length of a word operator)
     // cases 12..14: a word that starts with a character that is neither a letter nor one of the
     // operator-start characters
+    if i >= 15 {
+        // cases 15..17: one word registered in TWO roles (infix then postfix, postfix then infix,
+        // prefix then infix), `not` in the token alphabet
+        let (first, second) = [("infix", "postfix"), ("postfix", "infix"), ("prefix", "infix")][(i - 15) as usize];
+        let word = "wop";
+        let mut ops = OpSet::builtin();
+        for kind in [first, second] {
+            match kind {
+                "prefix" => {
+                    expression_engine::register_prefix_op(word, Arc::new(|v| Ok(v)));
+                    ops.prefix.insert(word.into());
+                }
+                "infix" => {
+                    expression_engine::register_infix_op(word, 105, InfixOpType::CALC, InfixOpAssociativity::LEFT, Arc::new(|a, _| Ok(a)));
+                    ops.infix.insert(word.into(), InfixInfo { prec: 105, left: true, setter: false });
+                }
+                _ => {
+                    expression_engine::register_postfix_op(word, Arc::new(|v| Ok(v)));
+                    ops.postfix.insert(word.into());
+                }
+            }
+        }
+        let stage = format!("registered[{} then {}]", first, second);
+        let seqs = TokenSeqs { alphabet: vec!["1", "x", word, "(", ")", ",", "+", ";", "not"], max_len: 5 };
+        for j in 0..seqs.len() {
+            let s = seqs.spaced(j);
+            judge(&s, &ops, &stage, out);
+            out.nontrivial.insert(hash64(&format!("{}{}", stage, s)));
+        }
+        out.count("states", 1);
+        out.count("transitions", seqs.len());
+        return;
+    }
     let word = if i >= 12 { "~>" } else if i >= 9 { "startsWithAnyCaseInsensitive_v2" } else { "wop" };
     let kind = ["prefix", "infix", "postfix"][(i % 3) as usize];
     let primed = (3..9).contains(&i);
@@ -216,6 +249,29 @@ fn registered_case(i: u64, out: &mut WorkerOut) {
     out.count("transitions", seqs.len());
 }
 
+/// texts that are malformed number literals by construction (no grammar needed to say so)
+fn malformed_numbers() -> Vec<String> {
+    let mut lits = super::c09::invalid_literals();
+    for n in 0..=70usize {
+        lits.push(format!("1.{}e", "0".repeat(n)));
+        lits.push(format!("1.{}.", "0".repeat(n + 1)));
+        lits.push(format!("0.{}1e5", "0".repeat(n)));
+        lits.push(format!("1.{}.5", "3".repeat(n + 1)));
+        lits.push(format!("0.{}.e+5", "12345678901234567890123456789012345678901234567890123456789012345678901".chars().take(n + 1).collect::<String>()));
+        lits.push(format!("{}e", "7".repeat(n + 1)));
+        lits.push(format!("1{}", ".".repeat(n + 2)));
+        lits.push(format!("{}.{}.{}", "1".repeat(n + 1), "2".repeat(n + 1), "3".repeat(n + 1)));
+    }
+    let mut v = Vec::new();
+    for l in lits {
+        v.push(format!("[1, {} + 2]", l));
+        v.push(format!("f({})", l));
+        v.push(format!("{} ; 1", l));
+        v.push(l);
+    }
+    v
+}
+
 impl Prop for C05 {
     fn id(&self) -> &'static str {
         "C05"
@@ -241,10 +297,10 @@ impl Prop for C05 {
         });
         stages.push(Stage {
             name: "registered".into(),
-            len: 15,
+            len: 18,
             chunk: 1,
             timeout: Duration::from_secs(300),
-            what: "fresh process: {prefix, infix, postfix} word operator registered, with or without parsing text that contains the word beforehand (and, parsed beforehand, with the registration made by another thread); then every sequence of <= 5 tokens over {1, x, the word, (, ), ',', +, ;} judged under the extended table".into(),
+            what: "fresh process: {prefix, infix, postfix} word operator registered, with or without parsing text that contains the word beforehand (and, parsed beforehand, with the registration made by another thread); then every sequence of <= 5 tokens over {1, x, the word, (, ), ',', +, ;} judged under the extended table; cases 15-17: the word registered in two roles (infix + postfix in both orders, prefix + infix) with `not` in the alphabet".into(),
         });
         let n = corruption_programs(tier).len() as u64;
         stages.push(Stage {
@@ -268,6 +324,13 @@ impl Prop for C05 {
             chunk: 1,
             timeout: Duration::from_secs(900),
             what: "malformed programs that are malformed only because a word is an operator, parsed while another thread re-registers that word with the role it already has, under the controlled scheduler: all schedules with <= 2 (3) preemptions; every parse must be rejected (accepted) as in every sequential order".into(),
+        });
+        stages.push(Stage {
+            name: "malformed-numbers".into(),
+            len: malformed_numbers().len() as u64,
+            chunk: 400,
+            timeout: Duration::from_secs(600),
+            what: "number literals that are malformed by construction, whatever their length (a second decimal point, a letter glued to the digits, exponent notation with exponents at every type boundary; the malformation after 0..70 fraction digits, so also behind a mantissa that is already full): alone, as a list element, as an argument, as a statement; each must be rejected".into(),
         });
         Plan {
             stages,
@@ -307,6 +370,26 @@ impl Prop for C05 {
                 if i % 200_003 == 5 {
                     out.sample(show(&spaced));
                 }
+            }
+            out.count("states", b - a);
+            out.count("transitions", b - a);
+            return;
+        }
+        if stage == sq.len() + 5 {
+            let ms = malformed_numbers();
+            for i in a..b {
+                out.at(i);
+                out.evals += 1;
+                let t = &ms[i as usize];
+                match engine::parse(t) {
+                    Res::Err(_) => {
+                        out.outcomes.insert("both-reject".into());
+                        out.count("rejected", 1);
+                    }
+                    Res::Ok(ast) => out.fail("accepted-malformed:number", format!("malformed-numbers|{}", show(t)), format!("parse_expression returned {:?}", ast)),
+                    Res::Panic(m) => out.fail(format!("panic:parse:{}", normalise_panic(&m)), format!("malformed-numbers|{}", show(t)), m),
+                }
+                out.nontrivial.insert(hash64(t));
             }
             out.count("states", b - a);
             out.count("transitions", b - a);
@@ -385,6 +468,9 @@ impl Prop for C05 {
         }
         if stage == sq.len() + 4 {
             return super::c13::accept_workloads()[i as usize].name.to_string();
+        }
+        if stage == sq.len() + 5 {
+            return show(&malformed_numbers()[i as usize]);
         }
         show(&corruption_programs(tier)[i as usize])
     }
